@@ -175,12 +175,14 @@ def fmtstrApply (lower : String → String) (f : FmtStr) (args : List ArgVal) (k
   | .ok a => .ok (copyWithNewAtts f a)
   | .error e => .error e
 
-/-- A `fmtfuncs` helper `partial(fmtstr, style=bound)` called with further arguments: the call's own
-    keywords override the bound one (`functools.partial`); `bound = ""` is `plain = partial(fmtstr)`. -/
+/-- The keywords a `fmtfuncs` helper `partial(fmtstr, style=bound)` passes on: the call's own keywords
+    override the bound one (`functools.partial`); `bound = ""` is `plain = partial(fmtstr)`. -/
+def fmtfuncKw (bound : String) (kwargs : Kw) : Kw :=
+  if bound == "" || kwargs.has "style" then kwargs else ("style", .str bound) :: kwargs
+
 def fmtfuncApply (lower : String → String) (bound : String) (f : FmtStr) (args : List ArgVal)
     (kwargs : Kw) : Except PyErr FmtStr :=
-  let kwargs := if bound == "" || kwargs.has "style" then kwargs else ("style", .str bound) :: kwargs
-  fmtstrApply lower f args kwargs
+  fmtstrApply lower f args (fmtfuncKw bound kwargs)
 
 /-- The attribute dict of an `Atts` record as keyword arguments (`**self.shared_atts`, `**atts`),
     in sorted key order. -/
